@@ -55,5 +55,26 @@ with common.Scratch("selftest") as s:
     rs = dict(good=bad_lines(evs), other_volume=bad_lines(m6), view_pos=bad_lines(m1), no_volread=bad_lines(m2), cache_sum=bad_lines(m3), beyond_file=bad_lines(m4), other_container=bad_lines(m5))
     print("TraceReadStack (%d events, rc=%s):" % (len(evs), o.rc), rs)
     ok = ok and rs["good"] == [] and all(rs[k] for k in rs if k != "good")
+# the storage hook events: a recorded two-file session is accepted; an attach under another number, a select handing out another device,
+# and a read on a device nobody selected are rejected
+with common.Scratch("selftest") as s:
+    bdir = common.build("ndebug")
+    a = discs.build("DFS", [mkdisc.entry("A", length=10, start=5)], s, "sa", nsectors=400, salt=3, title=b"SA")
+    b0 = mkdisc.surface_dfs(400, 5, title=b"SB0"); b1 = mkdisc.surface_dfs(400, 6, title=b"SB1")
+    pb = mkdisc.write(os.path.join(s, "sb.dsd"), mkdisc.container_interleaved(b0, b1, 10))
+    o, evs = readtrace.record([common.exe(bdir, "dfs"), "--file", a.path, "--file", pb, "cat", "3"], s, "sh", kinds=readtrace.STORAGE_KINDS)
+    def bad_lines2(events):
+        tp = os.path.join(s, "sh.ndjson")
+        open(tp, "w").write("".join(json.dumps(e) + "\n" for e in events))
+        okk, tr = common.validate_trace("TraceStorageHook", "TraceStorageHook.cfg", tp)
+        return tr.verdicts[-1]["bad"] if okk and tr.verdicts else None
+    ia = [i for i, e in enumerate(evs) if e["e"] == "attach"]
+    isel = next(i for i, e in enumerate(evs) if e["e"] == "select")
+    m1 = json.loads(json.dumps(evs)); m1[ia[-1]]["drive"] = 2            # side 1 of the second image next to side 0 instead of opposite it
+    m2 = json.loads(json.dumps(evs)); m2[isel]["dev"] = 0
+    m3 = [e for i, e in enumerate(evs) if i != isel]
+    rs2 = dict(good=bad_lines2(evs), attach_number=bad_lines2(m1), select_device=bad_lines2(m2), read_without_select=bad_lines2(m3))
+    print("TraceStorageHook (%d events, rc=%s):" % (len(evs), o.rc), rs2)
+    ok = ok and rs2["good"] == [] and all(rs2[k] for k in rs2 if k != "good")
 print("BINDING OK" if ok else "BINDING BROKEN")
 sys.exit(0 if ok else 1)
